@@ -157,4 +157,54 @@ theorem sorted_order_free {α : Type} (le : α → α → Bool) (htrans : ∀ a 
     (List.pairwise_mergeSort (fun a b c => htrans a b c) (fun a b => htotal a b) l₁)
     (List.pairwise_mergeSort (fun a b c => htrans a b c) (fun a b => htotal a b) l₂) p'
 
+/-! ### (iv) the kind mapper's contract under concurrency -/
+
+/-- the ids registered for a kind -/
+def idsOf (g : KM) (k : Nat) : List Nat := (g.table.filter (fun p => p.1 == k)).map (·.2)
+
+theorem idsOf_length_one : ∀ {t : List (Nat × Nat)} {next : Nat} {k : Nat}, (t.map (·.1)).Nodup → k ∈ t.map (·.1) →
+    (idsOf ⟨t, next⟩ k).length = 1
+  | [], _, _, _, h => nomatch h
+  | p :: t, next, k, hnd, hm => by
+    simp only [List.map_cons, List.nodup_cons] at hnd
+    simp only [List.map_cons, List.mem_cons] at hm
+    unfold idsOf
+    by_cases e : p.1 = k
+    · have hnot : ∀ q ∈ t, ¬ q.1 = k := fun q hq eq => hnd.1 (List.mem_map.2 ⟨q, hq, eq.trans e.symm⟩)
+      have hf : t.filter (fun q => q.1 == k) = [] := List.filter_eq_nil_iff.2 (fun q hq => by simpa using hnot q hq)
+      simp [List.filter_cons, e, hf]
+    · have hk : k ∈ t.map (·.1) := by
+        rcases hm with h | h
+        · exact absurd h.symm e
+        · exact h
+      have ih := idsOf_length_one (next := next) hnd.2 hk
+      unfold idsOf at ih
+      simpa [List.filter_cons, e] using ih
+
+/-- **assert_kinds_idempotent**: start from any consistent mapper and let any number of goroutines run
+`AssertKinds` with any kind lists (repetitions and overlaps allowed). For EVERY interleaving of their critical sections
+(`mapKinds` snapshot, then one `Put` per missing kind, where `Put` checks and allocates inside ONE lock acquisition):
+the table keeps one entry per kind, ids stay pairwise distinct and dense, and once a goroutine's `AssertKinds(ks)` has
+returned every `k ∈ ks` has exactly one id. -/
+theorem assert_kinds_idempotent (g0 : KM) (h0 : KMInv g0) (threads : List (List Nat)) (sched : List Nat) :
+    KMInv (kmRun true ⟨g0, threads.map KMPC.start⟩ sched).g ∧
+    ∀ ks, KMPC.done ks ∈ (kmRun true ⟨g0, threads.map KMPC.start⟩ sched).pcs →
+      ∀ k ∈ ks, (idsOf (kmRun true ⟨g0, threads.map KMPC.start⟩ sched).g k).length = 1 := by
+  have h := kmRun_inv sched ⟨g0, threads.map KMPC.start⟩ h0 (by
+    intro pc hpc
+    obtain ⟨ks, _, e⟩ := List.mem_map.1 hpc
+    subst e; trivial)
+  refine ⟨h.1, ?_⟩
+  intro ks hd k hk
+  have hhas : (kmRun true ⟨g0, threads.map KMPC.start⟩ sched).g.has k = true := h.2 _ hd k hk
+  exact idsOf_length_one h.1.keys (has_iff.1 hhas)
+
+/-- the check is necessary: if the allocating section does not re-check, two goroutines asserting the same new
+kind can both find it missing and register it twice (schedule: both snapshots first) — and a single goroutine does so
+for a repeated label `(n:New:New)`. -/
+theorem unchecked_put_registers_twice :
+    (idsOf (kmRun false ⟨KM.new, [.start [5], .start [5]]⟩ [0, 1, 0, 1, 0, 1]).g 5).length = 2 ∧
+    (idsOf (kmRun false ⟨KM.new, [.start [5, 5]]⟩ [0, 0, 0, 0]).g 5).length = 2 ∧
+    (idsOf (kmRun true ⟨KM.new, [.start [5], .start [5, 5]]⟩ [0, 1, 0, 1, 0, 1, 1]).g 5).length = 1 := by decide
+
 end Dawgs.C05.Props
